@@ -196,22 +196,22 @@ def run(ctx):
     if not ctx.stage_build():
         return
     quick = ctx.tier == "quick"
-    r = ctx.correspond("cachelayer", 2500 if quick else 30000, nontrivial=nontrivial, on_mismatch=remin(ctx, "cachelayer"))
+    r = ctx.correspond("cachelayer", 2500 if quick else 12000, nontrivial=nontrivial, on_mismatch=remin(ctx, "cachelayer"))
     shrink_hits(ctx, r, "cachelayer")
     for idx in r.order[:2]:  # readable samples: the history without the database definition
         ops = [(o, i) for o, i in zip(r.ops[idx], r.impl.get(idx, [])) if not o.startswith("cmd ")]
         ctx.cov["samples"].insert(0, dict(domain="cachelayer", note="cmd lines omitted; search output = answer id, d-hits, d-misses, size, hits, misses, evictions",
-                                          database_size=sum(1 for o in r.ops[idx] if o.startswith("cmd ")),
+                                          cmd_lines_in_history=sum(1 for o in r.ops[idx] if o.startswith("cmd ")),
                                           history=[dict(op=core.pretty(o), impl=i) for o, i in ops[:14]]))
     # options with NaN / Inf floats: separate stream, so that the Marshal-error fallback is reported separately
-    r = ctx.correspond("cachelayer", 400 if quick else 4000, name="cachelayer-nan", args={"nan": "1"}, nontrivial=nontrivial_nan, seed_offset=11,
+    r = ctx.correspond("cachelayer", 400 if quick else 1600, name="cachelayer-nan", args={"nan": "1"}, nontrivial=nontrivial_nan, seed_offset=11,
                        on_mismatch=remin(ctx, "cachelayer"))
     shrink_hits(ctx, r, "cachelayer")
     # more than `capacity` distinct keys: evictions in the LRU behind the cache
-    ctx.correspond("cachelayer", 1 if quick else 6, name="cachelayer-evict", args={"evict": "1"},
+    ctx.correspond("cachelayer", 1 if quick else 4, name="cachelayer-evict", args={"evict": "1"},
                    nontrivial=lambda t, o, i: t.get("evict", 0) > 0, seed_offset=23, sample_n=0, on_mismatch=remin(ctx, "cachelayer"))
     # aliasing between the caller's map / slice / result slice and the cache (values in the model: real code only)
-    r = ctx.correspond("cachealias", 200 if quick else 3000, model=False, nontrivial=lambda t, o, i: t.get("alias-probe", 0) > 0, seed_offset=31, sample_n=1)
+    r = ctx.correspond("cachealias", 200 if quick else 1500, model=False, nontrivial=lambda t, o, i: t.get("alias-probe", 0) > 0, seed_offset=31, sample_n=1)
     shrink_hits(ctx, r, "cachealias")
     # directed search attached to a broken fact: concentrate the deltas on the fields that are read but not keyed,
     # respectively on respelled typo-only queries
